@@ -1,14 +1,15 @@
 --------------------------- MODULE MC_C01_consts ---------------------------
 (* Facts about the working tree that Handlers.tla depends on (binding B1).  This file holds *)
-(* the values of the pinned tree; harness/c01.py REGENERATES it at every run from the tree  *)
+(* the values of /repo after the fixes deb1f92 and 0db1dbc (both were TRUE on the pinned     *)
+(* tree 573431b); harness/c01.py REGENERATES it at every run from the tree  *)
 (* under test: the two handler lists from conf/pygopherd.conf (shipped default; the         *)
 (* commented "full featureset" list + ZIP), and two behavioural probes of the code:         *)
 (*   NulRaises        HandlerMultiplexer.getHandler lets the ValueError of os.stat on a     *)
 (*                    path with a NUL escape (it swallows OSError only)                     *)
 (*   ZipCountsAsReal  the isinstance(self.vfs, VFS_Real) guard of the real-file-only        *)
 (*                    handlers accepts a VFSZip                                             *)
-NulRaises == TRUE
-ZipCountsAsReal == TRUE
+NulRaises == FALSE
+ZipCountsAsReal == FALSE
 DefaultList == <<"HTMLURLHandler", "BuckGophermapHandler", "MaildirFolderHandler", "MaildirMessageHandler",
                  "UMNDirHandler", "HTMLFileTitleHandler", "MBoxMessageHandler", "MBoxFolderHandler", "FileHandler">>
 FullList == <<"HTMLURLHandler", "BuckGophermapHandler", "MaildirFolderHandler", "MaildirMessageHandler",
